@@ -24,7 +24,7 @@ For each change also write a DEMONSTRATION: a small Rust test or program (placed
 
 Deliver, inside the worktree directory {wt}/SEED_OUT/ (create it):
   change1.diff  — `git diff` of the source change only (no demo files), applicable with `git apply` at the repository root
-  demo1/        — the demonstration files (with their relative paths inside the repo noted in demo1/README.txt) and README.txt: how to run it, expected output with and without the change
+  demo1/        — `demo1/files/<path relative to the repository root>` for every demonstration file (so that `cp -r demo1/files/. <repo root>/` installs it), `demo1/run.sh` (run from the repository root after installing the files; exits 0 iff the demonstration PASSES, i.e. exits non-zero with the change applied and 0 on the unchanged HEAD; it must set CARGO_NET_OFFLINE=true and use --offline), and README.txt: expected output with and without the change
   meta1.json    — {{"property": "{pid}", "summary": one line, "what_it_needs_to_manifest": …, "clause_broken": …, "files_touched": […], "tests_run": […commands…], "tests_result": "…"}}
   and the same for change2 (change2.diff, demo2/, meta2.json).
 Before finishing: `git stash`/`git checkout -- .` so the worktree's tracked files are back at HEAD (the SEED_OUT directory is untracked and stays), and delete the worktree's `target` directory to free disk space (`rm -rf {wt}/target`). Final report: for each change, 3–5 lines (what, why it breaks the property, what is needed to see it, what you ran).""")
